@@ -36,6 +36,7 @@ type backend struct {
 	defined    map[int]bool
 	pending    bytes.Buffer
 	curTimeout int
+	longWait   bool
 }
 
 func (b *backend) start() error {
@@ -107,6 +108,7 @@ type Solver struct {
 	NDisagree  int
 	FeasTimeoutMs int
 	lastSliceWhole bool
+	vcQuery bool
 	modelCache map[string]map[string]uint64
 }
 
@@ -126,6 +128,26 @@ func (s *Solver) Close() {
 }
 
 // readResp reads one balanced s-expression or atom line.
+// readRespTimed reads one response but gives up (and kills the process) if the solver stays silent.
+func (s *backend) readRespTimed(d time.Duration) (string, error) {
+	type rr struct {
+		s   string
+		err error
+	}
+	ch := make(chan rr, 1)
+	go func() {
+		r, err := s.readResp()
+		ch <- rr{r, err}
+	}()
+	select {
+	case r := <-ch:
+		return r.s, r.err
+	case <-time.After(d):
+		s.close()
+		return "", fmt.Errorf("solver %s silent for %v: killed", s.name, d)
+	}
+}
+
 func (s *backend) readResp() (string, error) {
 	var sb strings.Builder
 	depth := 0
@@ -313,9 +335,10 @@ func (s *Solver) check(conj []*Term, vars []*Term, vc bool) (Result, map[string]
 		tmo = s.FeasTimeoutMs
 	}
 	order := []*backend{s.z3, s.cvc}
-	if arith {
+	if arith && vc {
 		order = []*backend{s.cvc, s.z3}
 	}
+	s.vcQuery = vc
 	res := Unknown
 	var model map[string]uint64
 	for i, b := range order {
@@ -370,6 +393,7 @@ func (s *Solver) runBackend(b *backend, live, vars []*Term, tmo int) (Result, ma
 			return Unknown, nil
 		}
 	}
+	b.longWait = s.vcQuery
 	res, model, err := b.query(live, vars, tmo)
 	if err != nil {
 		s.ErrCount++
@@ -466,7 +490,15 @@ func (b *backend) query(live []*Term, vars []*Term, timeoutMs int) (Result, map[
 	if err := s.flush(); err != nil {
 		return Unknown, nil, err
 	}
-	resp, err := s.readResp()
+	wait := time.Duration(timeoutMs)*time.Millisecond + 10*time.Second
+	if !b.z3Timeout {
+		// cvc5 runs under --tlimit-per but does not always honour it: watchdog
+		wait = 4 * time.Second
+		if b.longWait {
+			wait = 20 * time.Second
+		}
+	}
+	resp, err := s.readRespTimed(wait)
 	if err != nil {
 		return Unknown, nil, err
 	}
@@ -498,7 +530,7 @@ func (b *backend) query(live []*Term, vars []*Term, timeoutMs int) (Result, map[
 		if err := s.flush(); err != nil {
 			return Unknown, nil, err
 		}
-		resp, err := s.readResp()
+		resp, err := s.readRespTimed(20 * time.Second)
 		if err != nil {
 			return Unknown, nil, err
 		}
